@@ -223,40 +223,52 @@ structure SpectralOut (α : Type) where
   embeddingRow : Option (Mat α)
   embeddingCol : Option (Mat α)
 
-/-- `Spectral.fit`.  `nnz` = number of stored entries (`check_format` refuses an empty matrix),
-    `solver op adjacency k` = what `LanczosEig(which='SM').fit(laplacian, k)` returned. -/
-def spectralFit (F : Fn α) (nRow nCol : Nat) (b : Mat α) (nnz : Nat) (forceBipartite : Bool)
-    (nComponents : Int) (rw : Bool) (regParam : α) (normalized : Bool)
-    (solver : LapOp α → Mat α → Nat → Vec α × Mat α) : Except PyErr (SpectralOut α) := do
-  if nnz == 0 then throw .valueError
-  -- get_adjacency(input_matrix, allow_directed=False, force_bipartite)
-  let bipartite := forceBipartite || nRow != nCol || !(isSymmetric nRow b)
-  let n := if bipartite then nRow + nCol else nRow
-  let adjacency := if bipartite then blockAdj nRow nCol b else b
-  -- regularization
-  let reg := getRegularization regParam (stronglyConnected n adjacency)
-  let regularized : Bool := decide (0 < reg)
-  -- laplacian
-  let op := lapInit F n adjacency reg rw
-  -- spectral decomposition
-  let k : Int := checkNComponents nComponents ((n : Int) - 2) + 1
-  if k ≤ 0 then throw .valueError      -- eigsh: "k must be greater than 0"
-  let k := k.toNat
-  let (values, vectors) := solver op adjacency k
-  let index := (argsort values).drop 1
+/-- `get_adjacency(input_matrix, allow_directed, force_bipartite)`: `(bipartite, n, adjacency)` -/
+def getAdjacency (nRow nCol : Nat) (b : Mat α) (allowDirected forceBipartite : Bool) : Bool × Nat × Mat α :=
+  let bipartite := forceBipartite || nRow != nCol || !(allowDirected || isSymmetric nRow b)
+  if bipartite then (true, nRow + nCol, blockAdj nRow nCol b) else (false, nRow, b)
+
+/-- `n_components = check_n_components(self.n_components, n - 2) + 1` -/
+def spectralK (nComponents : Int) (n : Nat) : Int := checkNComponents nComponents ((n : Int) - 2) + 1
+
+/-- `Spectral.fit` after the solver returned `(values, vectors)`: `(eigenvalues_, eigenvectors_, embedding)` -/
+def spectralPost (F : Fn α) (n : Nat) (op : LapOp α) (rw normalized : Bool) (values : Vec α) (vectors : Mat α) :
+    Vec α × Mat α × Mat α :=
+  let index := (argsort values).drop 1            -- increasing order, skip first
   let eigenvalues := index.map (vget values)
   let eigenvectors := selectCols n vectors index
   let kk := index.length
   let eigenvectors := if rw then mkMat n kk fun i c => vget op.normDiag i * mget eigenvectors i c else eigenvectors
   let eigenvalues := if rw then eigenvalues.map fun x => 1 - x else eigenvalues
   let embedding := if normalized then normalize2 F n kk eigenvectors else eigenvectors
+  (eigenvalues, eigenvectors, embedding)
+
+/-- `_split_vars` and the attributes -/
+def spectralResult (nRow : Nat) (bipartite regularized : Bool) (k : Nat) (post : Vec α × Mat α × Mat α) :
+    SpectralOut α :=
+  let (eigenvalues, eigenvectors, embedding) := post
   if bipartite then
     let er := embedding.take nRow
-    pure { bipartite, regularized, k, eigenvalues, eigenvectors, embedding := er,
-           embeddingRow := some er, embeddingCol := some (embedding.drop nRow) }
+    { bipartite, regularized, k, eigenvalues, eigenvectors, embedding := er,
+      embeddingRow := some er, embeddingCol := some (embedding.drop nRow) }
   else
-    pure { bipartite, regularized, k, eigenvalues, eigenvectors, embedding,
-           embeddingRow := none, embeddingCol := none }
+    { bipartite, regularized, k, eigenvalues, eigenvectors, embedding, embeddingRow := none, embeddingCol := none }
+
+/-- `Spectral.fit`.  `nnz` = number of stored entries (`check_format` refuses an empty matrix),
+    `solver op adjacency k` = what `LanczosEig(which='SM').fit(laplacian, k)` returned. -/
+def spectralFit (F : Fn α) (nRow nCol : Nat) (b : Mat α) (nnz : Nat) (forceBipartite : Bool)
+    (nComponents : Int) (rw : Bool) (regParam : α) (normalized : Bool)
+    (solver : LapOp α → Mat α → Nat → Vec α × Mat α) : Except PyErr (SpectralOut α) :=
+  if nnz == 0 then .error .valueError else
+  let g := getAdjacency nRow nCol b false forceBipartite
+  let n := g.2.1
+  let adjacency := g.2.2
+  let reg := getRegularization regParam (stronglyConnected n adjacency)
+  let op := lapInit F n adjacency reg rw
+  let k := spectralK nComponents n
+  if k ≤ 0 then .error .valueError else      -- eigsh: "k must be greater than 0"
+  let sol := solver op adjacency k.toNat
+  .ok (spectralResult nRow g.1 (decide (0 < reg)) k.toNat (spectralPost F n op rw normalized sol.1 sol.2))
 
 /-! ### svd.py -/
 
@@ -283,29 +295,26 @@ structure GsvdOut (α : Type) where
   embeddingCol : Mat α
   weightsCol : Vec α
 
+/-- `Regularizer(x, r)` if `regularization` is set, else the matrix itself -/
+def regOf (n m : Nat) (x : Mat α) (r : Option α) : SLR α :=
+  match r with
+  | some r => regularizer n m x r
+  | none => SLR.ofMat n m x
+
 /-- the matrix `GSVD.fit` hands to the solver, with the weights it computes on the way:
     `(weights_row, weights_col, diag_row, diag_col, diag_row · A_reg · diag_col)` -/
 def gsvdOperator (F : Fn α) (nRow nCol : Nat) (a : Mat α) (p : GsvdParams α) :
     Vec α × Vec α × Vec α × Vec α × SLR α :=
-  let areg : SLR α := match p.regularization with
-    | some r => regularizer nRow nCol a r
-    | none => SLR.ofMat nRow nCol a
+  let areg : SLR α := regOf nRow nCol a p.regularization
   let weightsRow := areg.matvec (tab nCol fun _ => 1)
   let weightsCol := areg.transpose.matvec (tab nRow fun _ => 1)
   let diagRow : Vec α := tab nRow fun i => pinv (F.pow (vget weightsRow i) p.factorRow)
   let diagCol : Vec α := tab nCol fun j => pinv (F.pow (vget weightsCol j) p.factorCol)
   (weightsRow, weightsCol, diagRow, diagCol, (areg.rightDiag diagCol).leftDiag diagRow)
 
-/-- `GSVD.fit` (`SVD` is the instance `factorRow = factorCol = 0`).
-    `solver M k` = `(singular_values_, singular_vectors_left_, singular_vectors_right_)` of the solver object. -/
-def gsvdFit (F : Fn α) (nRow nCol : Nat) (a : Mat α) (nnz : Nat) (p : GsvdParams α)
-    (solver : SLR α → Nat → Vec α × Mat α × Mat α) : Except PyErr (GsvdOut α) := do
-  if nnz == 0 then throw .valueError
-  let k : Int := checkNComponents p.nComponents ((min nRow nCol : Nat) - 1 : Int)
-  let (_, weightsCol, diagRow, diagCol, m) := gsvdOperator F nRow nCol a p
-  if k ≤ 0 ∨ k ≥ ((min nRow nCol : Nat) : Int) then throw .valueError   -- svds: 0 < k < min(shape)
-  let k := k.toNat
-  let (sv, u, v) := solver m k
+/-- `GSVD.fit` after the solver returned `(σ, U, V)` -/
+def gsvdPost (F : Fn α) (nRow nCol : Nat) (p : GsvdParams α) (k : Nat) (diagRow diagCol weightsCol : Vec α)
+    (sv : Vec α) (u v : Mat α) : GsvdOut α :=
   let index := argsort (sv.map fun x => -x)
   let kk := index.length
   let sv := index.map (vget sv)
@@ -317,33 +326,55 @@ def gsvdFit (F : Fn α) (nRow nCol : Nat) (a : Mat α) (nnz : Nat) (p : GsvdPara
   let ec := mkMat nCol kk fun j c => vget sr c * (vget diagCol j * mget right j c)
   let er := if p.normalized then normalize2 F nRow kk er else er
   let ec := if p.normalized then normalize2 F nCol kk ec else ec
-  pure { k, singularValues := sv, left, right, embeddingRow := er, embeddingCol := ec, weightsCol }
+  { k, singularValues := sv, left, right, embeddingRow := er, embeddingCol := ec, weightsCol }
 
-/-- `GSVD.predict(adjacency_vectors)` for `nVec` vectors of length `len` (rows of `x`), `xnnz` stored
-    entries; the fitted state is `(singular_values_, singular_vectors_right_, weights_col_)` and `nCol`. -/
-def gsvdPredict (F : Fn α) (p : GsvdParams α) (nCol : Nat) (sv : Vec α) (right : Mat α) (weightsCol : Vec α)
-    (nVec len : Nat) (x : Mat α) (xnnz : Nat) : Except PyErr (Mat α) := do
-  if xnnz == 0 then throw .valueError                    -- check_format
-  if len != nCol then throw .valueError                  -- check_adjacency_vector
-  if (List.range nVec).any fun i => (List.range len).any fun j => decide (mget x i j < 0) then
-    throw .valueError                                     -- check_nonnegative
+/-- `n_components = check_n_components(self.n_components, min(n_row, n_col) - 1)` -/
+def gsvdK (nComponents : Int) (nRow nCol : Nat) : Int :=
+  checkNComponents nComponents (((min nRow nCol : Nat) : Int) - 1)
+
+/-- `GSVD.fit` (`SVD` is the instance `factorRow = factorCol = 0`).
+    `solver M k` = `(singular_values_, singular_vectors_left_, singular_vectors_right_)` of the solver object. -/
+def gsvdFit (F : Fn α) (nRow nCol : Nat) (a : Mat α) (nnz : Nat) (p : GsvdParams α)
+    (solver : SLR α → Nat → Vec α × Mat α × Mat α) : Except PyErr (GsvdOut α) :=
+  if nnz == 0 then .error .valueError else
+  let k := gsvdK p.nComponents nRow nCol
+  let o := gsvdOperator F nRow nCol a p
+  if k ≤ 0 ∨ k ≥ ((min nRow nCol : Nat) : Int) then .error .valueError else   -- svds: 0 < k < min(shape)
+  let sol := solver o.2.2.2.2 k.toNat
+  .ok (gsvdPost F nRow nCol p k.toNat o.2.2.1 o.2.2.2.1 o.2.1 sol.1 sol.2.1 sol.2.2)
+
+/-- the checks of `predict`: `check_format`, `check_adjacency_vector`, `check_nonnegative` -/
+def predictRefused (nCol nVec len : Nat) (x : Mat α) (xnnz : Nat) : Bool :=
+  xnnz == 0 || len != nCol ||
+    (List.range nVec).any fun i => (List.range len).any fun j => decide (mget x i j < 0)
+
+/-- `GSVD.predict` once the input passed the checks -/
+def gsvdPredictCore (F : Fn α) (p : GsvdParams α) (nCol : Nat) (sv : Vec α) (right : Mat α) (weightsCol : Vec α)
+    (nVec : Nat) (x : Mat α) : Mat α :=
   let kk := sv.length
-  let xreg : SLR α := match p.regularization with
-    | some r => regularizer nVec nCol x r
-    | none => SLR.ofMat nVec nCol x
+  let xreg : SLR α := regOf nVec nCol x p.regularization
   let weightsRow := xreg.matvec (tab nCol fun _ => 1)
   let diagRow : Vec α := tab nVec fun i => pinv (F.pow (vget weightsRow i) p.factorRow)
   let diagCol : Vec α := tab nCol fun j => pinv (F.pow (vget weightsCol j) p.factorCol)
   let av := (xreg.rightDiag diagCol).leftDiag diagRow
   let proj := av.matmat kk right
   let ev := mkMat nVec kk fun i c => (vget diagRow i * mget proj i c) / F.pow (vget sv c) p.factorSingular
-  pure (if p.normalized then normalize2 F nVec kk ev else ev)
+  if p.normalized then normalize2 F nVec kk ev else ev
 
-/-- the operator `PCA.fit` hands to the solver: `SparseLR(A, (-1, Aᵀ1 / n_row))` -/
+/-- `GSVD.predict(adjacency_vectors)` for `nVec` vectors of length `len` (rows of `x`), `xnnz` stored
+    entries; the fitted state is `(singular_values_, singular_vectors_right_, weights_col_)` and `nCol`. -/
+def gsvdPredict (F : Fn α) (p : GsvdParams α) (nCol : Nat) (sv : Vec α) (right : Mat α) (weightsCol : Vec α)
+    (nVec len : Nat) (x : Mat α) (xnnz : Nat) : Except PyErr (Mat α) :=
+  if predictRefused nCol nVec len x xnnz then .error .valueError
+  else .ok (gsvdPredictCore F p nCol sv right weightsCol nVec x)
+
+/-- `means_col = Aᵀ1 / n_row` -/
+def pcaMeans (nRow nCol : Nat) (a : Mat α) : Vec α :=
+  tab nCol fun j => (sumN nRow fun i => mget a i j * 1) / (nRow : α)
+
+/-- the operator `PCA.fit` hands to the solver: `SparseLR(A, (-1, means_col))` -/
 def pcaOperator (nRow nCol : Nat) (a : Mat α) : SLR α :=
-  let colsum : Vec α := tab nCol fun j => sumN nRow fun i => mget a i j * 1
-  { nRow, nCol, sparse := a,
-    lowRank := [(tab nRow fun _ => -1, tab nCol fun j => vget colsum j / (nRow : α))] }
+  { nRow, nCol, sparse := a, lowRank := [(tab nRow fun _ => -1, pcaMeans nRow nCol a)] }
 
 structure PcaOut (α : Type) where
   singularValues : Vec α
@@ -353,32 +384,35 @@ structure PcaOut (α : Type) where
   embeddingCol : Mat α
   mean : Vec α
 
+/-- `PCA.fit` after the solver returned -/
+def pcaPost (F : Fn α) (nRow nCol : Nat) (normalized : Bool) (mean : Vec α) (sv : Vec α) (u v : Mat α) : PcaOut α :=
+  let kk := sv.length
+  { singularValues := sv, left := u, right := v,
+    embeddingRow := if normalized then normalize2 F nRow kk u else u,
+    embeddingCol := if normalized then normalize2 F nCol kk v else v, mean }
+
 /-- `PCA.fit`: no clamp of `n_components`, the solver's triplets are taken as they come; the embedding
     is the pair of singular-vector matrices, row-normalised when `normalized`; the column means are kept
     (`means_col_`) for `predict`. -/
 def pcaFit (F : Fn α) (nRow nCol : Nat) (a : Mat α) (nnz : Nat) (nComponents : Int) (normalized : Bool)
-    (solver : SLR α → Nat → Vec α × Mat α × Mat α) : Except PyErr (PcaOut α) := do
-  if nnz == 0 then throw .valueError
-  let m := pcaOperator nRow nCol a
-  if nComponents ≤ 0 ∨ nComponents ≥ ((min nRow nCol : Nat) : Int) then throw .valueError
-  let (sv, u, v) := solver m nComponents.toNat
-  let kk := sv.length
-  let er := if normalized then normalize2 F nRow kk u else u
-  let ec := if normalized then normalize2 F nCol kk v else v
-  pure { singularValues := sv, left := u, right := v, embeddingRow := er, embeddingCol := ec,
-         mean := match m.lowRank with | [(_, y)] => y | _ => [] }
+    (solver : SLR α → Nat → Vec α × Mat α × Mat α) : Except PyErr (PcaOut α) :=
+  if nnz == 0 then .error .valueError else
+  if nComponents ≤ 0 ∨ nComponents ≥ ((min nRow nCol : Nat) : Int) then .error .valueError else
+  let sol := solver (pcaOperator nRow nCol a) nComponents.toNat
+  .ok (pcaPost F nRow nCol normalized (pcaMeans nRow nCol a) sol.1 sol.2.1 sol.2.2)
 
-/-- `PCA.predict(adjacency_vectors)`: `((x − μ) V) / σ`, row-normalised when `normalized` -/
-def pcaPredict (F : Fn α) (normalized : Bool) (nCol : Nat) (sv : Vec α) (right : Mat α) (mean : Vec α)
-    (nVec len : Nat) (x : Mat α) (xnnz : Nat) : Except PyErr (Mat α) := do
-  if xnnz == 0 then throw .valueError                    -- check_format
-  if len != nCol then throw .valueError                  -- check_adjacency_vector
-  if (List.range nVec).any fun i => (List.range len).any fun j => decide (mget x i j < 0) then
-    throw .valueError                                     -- check_nonnegative
+/-- `PCA.predict` once the input passed the checks: `((x − μ) V) / σ`, row-normalised when `normalized` -/
+def pcaPredictCore (F : Fn α) (normalized : Bool) (nCol : Nat) (sv : Vec α) (right : Mat α) (mean : Vec α)
+    (nVec : Nat) (x : Mat α) : Mat α :=
   let kk := sv.length
   let mv : Vec α := tab kk fun c => sumN nCol fun j => vget mean j * mget right j c
   let ev := mkMat nVec kk fun i c => ((sumN nCol fun j => mget x i j * mget right j c) - vget mv c) / vget sv c
-  pure (if normalized then normalize2 F nVec kk ev else ev)
+  if normalized then normalize2 F nVec kk ev else ev
+
+def pcaPredict (F : Fn α) (normalized : Bool) (nCol : Nat) (sv : Vec α) (right : Mat α) (mean : Vec α)
+    (nVec len : Nat) (x : Mat α) (xnnz : Nat) : Except PyErr (Mat α) :=
+  if predictRefused nCol nVec len x xnnz then .error .valueError
+  else .ok (pcaPredictCore F normalized nCol sv right mean nVec x)
 
 /-! ### random_projection.py -/
 
@@ -403,25 +437,29 @@ structure RpOut (α : Type) where
   embeddingRow : Option (Mat α)
   embeddingCol : Option (Mat α)
 
+/-- the full (rows then columns) embedding of `RandomProjection.fit` on the square adjacency -/
+def rpEmbedding (F : Fn α) (n : Nat) (adjacency : Mat α) (reg alpha : α) (nIter : Nat) (randomWalk normalized : Bool)
+    (q : Mat α) : Mat α :=
+  let kk := (q.getD 0 []).length
+  let emb := (rpLoop n kk adjacency reg alpha randomWalk nIter q q).2
+  if normalized then normalize2 F n kk emb else emb
+
 /-- `RandomProjection.fit`; `g n` is the orthonormalised Gaussian matrix (`n × nComponents`) -/
 def rpFit (F : Fn α) (nRow nCol : Nat) (b : Mat α) (nnz : Nat) (forceBipartite : Bool)
     (alpha : α) (nIter : Nat) (randomWalk : Bool) (regParam : α) (normalized : Bool)
-    (g : Nat → Mat α) : Except PyErr (RpOut α) := do
-  if nnz == 0 then throw .valueError
-  let bipartite := forceBipartite || nRow != nCol
-  let n := if bipartite then nRow + nCol else nRow
-  let adjacency := if bipartite then blockAdj nRow nCol b else b
+    (g : Nat → Mat α) : Except PyErr (RpOut α) :=
+  if nnz == 0 then .error .valueError else
+  let ga := getAdjacency nRow nCol b true forceBipartite
+  let n := ga.2.1
+  let adjacency := ga.2.2
   let reg := getRegularization regParam (stronglyConnected n adjacency)
   let regularized : Bool := decide (0 < reg)
-  let q := g n
-  let kk := (q.getD 0 []).length
-  let (_, emb) := rpLoop n kk adjacency reg alpha randomWalk nIter q q
-  let emb := if normalized then normalize2 F n kk emb else emb
-  if bipartite then
+  let emb := rpEmbedding F n adjacency reg alpha nIter randomWalk normalized (g n)
+  if ga.1 then
     let er := emb.take nRow
-    pure { bipartite, regularized, embedding := er, embeddingRow := some er, embeddingCol := some (emb.drop nRow) }
+    .ok { bipartite := true, regularized, embedding := er, embeddingRow := some er, embeddingCol := some (emb.drop nRow) }
   else
-    pure { bipartite, regularized, embedding := emb, embeddingRow := none, embeddingCol := none }
+    .ok { bipartite := false, regularized, embedding := emb, embeddingRow := none, embeddingCol := none }
 
 end
 
